@@ -173,13 +173,16 @@ def run_case(spec, ctx):
                           f"{rej.sum()} of {rows} own {how} boundary samples rejected by the boundary's "
                           f"_contains, e.g. { {kk: np.round(v[i], 6).tolist() for kk, v in e_own.items()} }")
     # far rows must be rejected, reference-certain boundary rows accepted
+    ext = _extended_edge_queries(E, penv, k)
+    if ext is not None:
+        env = geo.env32({kk: np.concatenate([env[kk], ext[kk]]) for kk in env})
     vals = _lib_contains(ctx, D, env, "_contains", top)
     if vals is not None:
         st_far = rg.status(E, env, 100 * tol["tol_b"])
         bad = (st_far == rg.OUT) & vals
         if bad.any():
             i = np.where(bad)[0][0]
-            ctx.violation("far-row-accepted", top,
+            ctx.violation("far-row-accepted", _blame_boundary(E, {kk: v[[i]] for kk, v in env.items()}, tol["tol_b"]),
                           f"{bad.sum()} rows farther than {100 * tol['tol_b']:.3g} from the boundary accepted, e.g. "
                           f"{ {kk: np.round(v[i], 6).tolist() for kk, v in env.items()} }")
         summary.update(far_rejected=int(((st_far == rg.OUT) & ~vals).sum()), own_accepted=own_ok)
@@ -208,3 +211,46 @@ def _blame_boundary(E, env1, tol):
     visit(A, env1)
     labs.sort()
     return labs[0][1] if labs else "?"
+
+
+def _extended_edge_queries(E, penv, k):
+    """points on the straight continuation of polygon edges beyond their end points (they are off
+    the boundary although they satisfy the edge's line equation) for single-variable boundaries."""
+    A = E["a"] if E["t"] == "boundary" else None
+    if A is None or rg.has(A, lambda n: n["t"] == "product"):
+        return None
+    var = rg.space_vars(A)[0][0]
+    rows = max(k, 1)
+    out = {kk: [] for kk in list(penv.keys()) + [var]}
+
+    def visit(n, chain):
+        if n["t"] in ("par", "tri", "poly"):
+            for i in range(rows):
+                pe1 = {kk: v[i:i + 1] for kk, v in penv.items()} if k else {}
+                rings = [rg._leaf_polygon(n, geo._penv_for(n, pe1), 1)[0]] if n["t"] != "poly" else \
+                    [np.asarray(r, float) for r in rg._rings(n)]
+                pts = []
+                for ring in rings:
+                    for j in range(len(ring)):
+                        a, b = ring[j], ring[(j + 1) % len(ring)]
+                        for t in (-1.5, -0.5, -0.15, 1.15, 1.5, 2.5):
+                            pts.append(a + t * (b - a))
+                pts = np.array(pts)
+                for node in chain:
+                    pe = {kk: np.repeat(v, len(pts), axis=0) for kk, v in pe1.items()}
+                    pts = rg.push_forward(node, pe, pts)
+                out[var].append(pts)
+                for kk in penv:
+                    out[kk].append(np.repeat(penv[kk][i:i + 1], len(pts), axis=0))
+        elif n["t"] in ("translate", "rotate"):
+            visit(n["a"], [n] + list(chain))
+        else:
+            for c in rg.children(n):
+                visit(c, chain)
+    try:
+        visit(A, [])
+    except (KeyError, ValueError):
+        return None
+    if not out[var]:
+        return None
+    return {kk: np.concatenate(v) for kk, v in out.items()}
